@@ -1,10 +1,10 @@
 package simharness
 
 import (
-	"net/url"
-	"github.com/hashicorp/eventlogger/formatter_filters/cloudevents"
 	"context"
 	"fmt"
+	"github.com/hashicorp/eventlogger/formatter_filters/cloudevents"
+	"net/url"
 	"sort"
 	"strings"
 	"time"
